@@ -59,9 +59,14 @@ class ParticleGibbsSubtreeSampler(ParticleGibbsTreeSampler):
             if label != outlier_node_name:
                 nodes.append(label)
 
-        subtree_root_child = self._rng.choice(nodes)
+        if len(nodes) == 0:
+            # Every data point is an outlier: the only subtree is the whole tree
+            subtree_root = tree.root_node_name
 
-        subtree_root = tree.get_parent(subtree_root_child)
+        else:
+            subtree_root_child = self._rng.choice(nodes)
+
+            subtree_root = tree.get_parent(subtree_root_child)
 
         parent = tree.get_parent(subtree_root)
 
